@@ -226,6 +226,14 @@ def corr_functions(ctx, drv, rng, tie_bad):
         if (ref is None) != (got is None) or (ref is not None and not C.bit_equal(ref, got)):
             bad("_fill_to_dim", dict(dim=dim, vals=hexl(vals)), "fill_to_dim")
             break
+    # np.isclose as used by CovModel.__eq__, around its threshold
+    for _ in range(60):
+        b = float(rng.normal() * 10.0 ** rng.integers(-9, 3))
+        a = b + (1e-8 + 1e-5 * abs(b)) * float(rng.choice([0.0, 0.5, 0.999999, 1.000001, 2.0, -0.999999, -1.000001]))
+        ctx.count(None, hist=dict(op="isclose"))
+        if bool(np.isclose(a, b)) != bool(drv.call("isclose", a, b)):
+            bad("np.isclose (CovModel.__eq__)", dict(a=C.fhex(a), b=C.fhex(b)), "isclose")
+            break
     # generator construction: every derived attribute
     nbit = ntot = 0
     for i in range(n_cfg):
@@ -345,7 +353,9 @@ def gen_history(rng, dim, n_ops, classes):
             ops.append(dict(op="nothing"))
         elif u < 0.96:
             ops.append(dict(op="same_model"))
-        elif u < 0.98:
+        elif u < 0.97:
+            ops.append(dict(op="tiny", rel=float(rng.choice([5e-6, -5e-6, 2e-5, 1e-9]))))   # around np.isclose's rtol
+        elif u < 0.985:
             ops.append(dict(op="period", period=[]))                     # empty period: rejected
         else:
             ops.append(dict(op="mode_no", mode_no=[int(rng.choice([0, -2]))] + gen_mode_no(rng, dim, big=False)[:dim - 1]))
@@ -367,6 +377,13 @@ def apply_op(gen, model, op):
             gen.mode_no = args["mode_no"]
         elif k in ("anis", "len_scale", "angles", "var"):
             setattr(model, k, op[k])                # in-place change of the field's model, then what SRF.__call__ does
+            args["model"] = model
+            gen.update(model, np.nan)
+        elif k == "tiny":
+            if model.dim > 1:
+                model.anis = [a * (1.0 + op["rel"]) for a in np.atleast_1d(model.anis)]
+            else:
+                model.len_scale = model.len_scale * (1.0 + op["rel"])
             args["model"] = model
             gen.update(model, np.nan)
         elif k == "new_model":
@@ -588,7 +605,7 @@ def probe_histories(ctx, rng):
         period = gen_period(rng, dim)
         mode_no = gen_mode_no(rng, dim, big=False)
         ops = [o for o in gen_history(rng, dim, int(rng.integers(2, 7)), ANALYTIC)
-               if o["op"] not in ("nothing", "same_model") and o.get("period", 1) != [] and min(o.get("mode_no", [2])) >= 0]
+               if o["op"] not in ("nothing", "same_model", "tiny") and o.get("period", 1) != [] and min(o.get("mode_no", [2])) >= 0]
         tagk = "random"
         if i >= n:
             # a count/period pair on which a float-step arange has one entry too many, then a period / model change
